@@ -47,6 +47,7 @@ OBLIGATIONS = [
 
 BACKENDS = ["epoll", "poll", "select"]
 CODES = {"ok": 0, "canceled": 1, "selfail": 2, "badf": 3, "syserr": 4}
+JUDGE_CODES = dict(CODES, again=5)     # EAGAIN/EWOULDBLOCK handed to a handler: outside what Spec.handlerOK accepts (code <= 4)
 D12_ID = "aio-double-arm-drops-handler"
 STALE_ID = "aio-queued-arm-overtaken-by-cancel-close"
 D12_CASE = "L 1 0 P0=- S start ar:0:0 ar:0:0 pw:0 step:0 step:0 step"
@@ -414,7 +415,7 @@ def judge_line(case, impl_out, model_raw=""):
         calls = {}
         for e in log.split():
             i, code, at, th = e.split(":")
-            c = calls.setdefault(i, [0, CODES.get(code, 9), at, 1])
+            c = calls.setdefault(i, [0, JUDGE_CODES.get(code, 9), at, 1])
             c[0] += 1
             if th != "L":
                 c[3] = 0
